@@ -189,4 +189,7 @@ MANIFEST_TEXT = {
 NOT_APPLICABLE = {}
 
 import c16 as _c16  # noqa: E402
+import asmx as _asmx  # noqa: E402
 PROPS["C16"]["custom"] = _c16.run
+PROPS["C01"]["custom"] = _asmx.run
+PROPS["C15"]["custom"] = _asmx.run
